@@ -69,6 +69,7 @@ def run_template(job):
         mod = importlib.import_module('props.' + t['mod'])
         fn = getattr(mod, t['fn'])
         eng = symx.Engine(seed=job.get('seed', 0), solver_timeout_ms=job.get('solver_timeout_ms', 20000))
+        eng.dump_k = job.get('dump_k', 0)
         first = {'done': False}
         seen, prof = _profile_functions(None)
         saved_opts = dict(da.rcParams)
@@ -95,7 +96,8 @@ def run_template(job):
                    q_sat=eng.stats['q_sat'], q_unsat=eng.stats['q_unsat'], q_unknown=eng.stats['q_unknown'],
                    solver_s=round(eng.ztime, 3), functions=sorted(seen),
                    witnesses=[ctxmod.to_json(w) for w in res['witnesses']],
-                   cex=ctxmod.to_json(res['cex']) if res['cex'] else None)
+                   cex=ctxmod.to_json(res['cex']) if res['cex'] else None, dumps=list(eng.dumps),
+                   fresh_solver_queries=eng.stats['fresh_solver_queries'], split_obligations=eng.stats['split_obligations'])
     except BaseException as e:   # harness bug or engine failure: never a verdict
         out.update(status='error', error="%s: %s" % (type(e).__name__, e), tb=traceback.format_exc()[-2000:],
                    paths=0, verified=0, vacuous=0, aborted=0, reasons=[], forks=0, decisions=0, q_sat=0, q_unsat=0,
